@@ -597,15 +597,47 @@ def observed_layout(decoder, mk):
     return got[0] if len(got) == 1 else -1
 
 
+_WATCHED = {}
+
+
+def watched_client_class():
+    """KafkaClient with a recording property in place of the attribute `_api_versions`: every WRITE is logged, so a
+    writer the model does not know (reset, close, a retry path ...) cannot go unnoticed"""
+    from afkak.client import KafkaClient
+    if KafkaClient not in _WATCHED:
+        class WatchedClient(KafkaClient):
+            @property
+            def _api_versions(self):
+                return self.__dict__.get("_c04_cell")
+
+            @_api_versions.setter
+            def _api_versions(self, v):
+                self.__dict__.setdefault("_c04_writes", []).append(v)
+                self.__dict__["_c04_cell"] = v
+        _WATCHED[KafkaClient] = WatchedClient
+    return _WATCHED[KafkaClient]
+
+
+def cell_rewritten(client):
+    """None, or (resolved value, later value): the version state was written again after it had been resolved"""
+    resolved = None
+    for v in client.__dict__.get("_c04_writes", []):
+        if resolved is not None and v != resolved[0]:
+            return (repr(resolved[0])[:200], repr(v)[:200])
+        if v is not None and resolved is None:
+            resolved = (v,)
+    return None
+
+
 class ScriptedClient:
     """the REAL KafkaClient with the two network-facing methods replaced by scripted Deferreds"""
 
     def __init__(self, discovery, client_id="afkak-client"):
         from twisted.internet import defer, task
-        from afkak.client import KafkaClient
         self.defer = defer
         self.clock = task.Clock()
-        self.client = KafkaClient("h:9092", clientId=client_id, reactor=self.clock, enable_protocol_version_discovery=discovery)
+        self.client = watched_client_class()("h:9092", clientId=client_id, reactor=self.clock,
+                                             enable_protocol_version_discovery=discovery)
         self.unaware = []          # [requestId, request bytes, Deferred]
         self.aware = []            # (payloads, encoder, decoder)
         self.client._send_broker_unaware_request = self._unaware
@@ -740,10 +772,14 @@ def impl_negotiate(discovery, outs):
 
 
 def gen_events(rnd):
-    """overlapping get_api_version calls: list of ('call', id, key) / ('reply', id, outcome)"""
+    """overlapping get_api_version calls and metadata resets:
+    list of ('call', id, key) / ('reply', id, outcome) / ('reset', which)"""
     evs, open_ids, nid = [], [], 0
     for _ in range(rnd.randint(1, 10)):
-        if not open_ids or rnd.random() < 0.35:
+        r0 = rnd.random()
+        if r0 < 0.12:
+            evs.append(("reset", rnd.choice([0, 0, 1, 2])))
+        elif not open_ids or r0 < 0.45:
             evs.append(("call", nid, rnd.choice([0, 1, 0, 1, 3, 18])))
             open_ids.append(nid)
             nid += 1
@@ -779,7 +815,15 @@ def impl_events(discovery, evs):
         return [] if not h else [h[0][1]] if h[0][0] == 1 else [-2]
 
     for ev in evs:
-        if ev[0] == "call":
+        if ev[0] == "reset":
+            if ev[1] == 0:
+                sc.client.reset_all_metadata()
+            elif ev[1] == 1:
+                sc.client.reset_topic_metadata("t")
+            else:
+                sc.client.reset_consumer_group_metadata("g")
+            obs += cell()
+        elif ev[0] == "call":
             _, i, key = ev
             if i in calls and calls[i][1] is not None:
                 obs += cell()
@@ -800,6 +844,9 @@ def impl_events(discovery, evs):
                     calls[i][1] = None
             else:
                 obs += cell()
+    rewritten = cell_rewritten(sc.client)
+    if rewritten:
+        cells.append(("rewritten",) + rewritten)
     return obs, cells
 
 
@@ -808,44 +855,139 @@ def case_events(discovery, evs):
     for ev in evs:
         if ev[0] == "call":
             c += [0, ev[1], ev[2]]
+        elif ev[0] == "reset":
+            c += [2]
         else:
             c += [1, ev[1]] + outcome_ints(ev[2])
     return c
 
 
 # ------------------------------------------------------------------ end to end: Producer -> KafkaClient -> frames
-def e2e_producer(rnd, discovery, outs, codec_id, ngroups):
-    """the REAL Producer on the REAL KafkaClient; only the client's lowest request functions are scripted.
-    Returns the request frames handed to broker clients and what was sent."""
+def expected_produce(groups, codec_id, magic, base, version, corr, cid, acks, timeout):
+    """What a Produce request of the Producer must parse to: `groups` = [(topic, partition, key, [value...])] in the
+    order send_messages was called.  One payload per (topic, partition) in order of first occurrence
+    (producer.py:371-411), its message set built by create_message_set: one message per value in order, format
+    `magic`, timestamps = successive clock readings (base, base+1, ...) in creation order, one gzip wrapper around them
+    when the codec says so (attributes = codec, key null, its own timestamp read after the inner ones)."""
+    by_tp = {}
+    for topic, partition, key, vals in groups:
+        by_tp.setdefault((topic, partition), []).extend((key, v) for v in vals)
+    k = 0
+    payload_msgs = {}
+    for tp, kvs in by_tp.items():
+        inner = []
+        for key, v in kvs:
+            inner.append(pm(0, magic, 0, (base + k) if magic == 1 else None, key, v))
+            k += magic
+        if codec_id == 0:
+            payload_msgs[tp] = [{"wrapper": False, "msg": m} for m in inner]
+        else:
+            payload_msgs[tp] = [{"wrapper": True, "inner": inner,
+                                 "msg": pm(0, magic, codec_id, (base + k) if magic == 1 else None, None, None)}]
+            k += magic
+    topics = {}
+    for (topic, partition), ms in payload_msgs.items():
+        topics.setdefault(topic, []).append((partition, ms))
+    return hdr_expect(0, version, corr, cid,
+                      {"api": "Produce", "acks": acks, "timeout": timeout,
+                       "topics": [(t.encode("ascii"), parts) for t, parts in topics.items()]})
+
+
+def strip_wrapper_values(req):
+    """the compressed bytes of a wrapper are not predicted (gzip header), its inner messages are: blank the value"""
+    if req is None or req["body"]["api"] != "Produce":
+        return req
+    for _t, parts in req["body"]["topics"]:
+        for _p, ms in parts:
+            for m in ms:
+                if m["wrapper"]:
+                    m["msg"] = dict(m["msg"], value=None)
+    return req
+
+
+def e2e_producer(rnd, discovery, outs, codec_id):
+    """The REAL Producer on the REAL KafkaClient; only the client's lowest request functions are scripted.
+    Random topics, partitions (scripted partitioner), keys, values, req_acks, ack_timeout.  After the first Produce
+    request went out its send FAILS (the broker client reports a timeout): the client drops its metadata
+    (client.py:1367) and the producer retries the SAME payloads.  Returns a dict with every frame, what each must
+    parse to, and the problems found."""
     from twisted.internet import defer
+    from afkak.common import RequestTimedOutError
     from afkak.producer import Producer
-    sc = ScriptedClient(discovery)
+    cid = rnd.choice(["afkak-client", nice(rnd)])
+    sc = ScriptedClient(discovery, client_id=cid)
     del sc.client._send_broker_aware_request          # back to the real routing/encoding function
-    frames = []
+    frames = []                                       # [correlation id, bytes, Deferred]
 
     def make_request(broker, correlationId, request, expectResponse=True, min_timeout=None):
-        frames.append(bytes(request))
-        return defer.Deferred()
+        d = defer.Deferred()
+        frames.append([correlationId, bytes(request), d])
+        return d
     sc.client._make_request_to_broker = make_request
     sc.client._get_brokerclient = lambda node_id: object()
-    topic = "e2e"
-    give_topic(sc.client, topic)
+    topics = [nice(rnd, 1, 12) for _ in range(rnd.randint(1, 2))]
+    for t in topics:
+        give_topic(sc.client, t, (0, 1, 2))
     groups = []
-    for i in range(ngroups):
-        key = rnd.choice([None, b"k%d" % i])
+    for i in range(rnd.randint(1, 5)):
         vals = [rnd.choice([b"", b"v%d" % i, b"x" * rnd.randint(1, 20)]) for _ in range(rnd.randint(1, 2))]
-        groups.append((key, vals))
-    total = sum(len(v) for _, v in groups)
-    prod = Producer(sc.client, codec=(codec_id or None), batch_send=True, batch_every_n=total, batch_every_b=0, batch_every_t=0)
-    for key, vals in groups:
-        prod.send_messages(topic, key=key, msgs=list(vals))
-    for o in outs:
-        pending = [e for e in sc.unaware if not e[2].called]
-        if not pending:
-            break
-        sc.deliver(pending[0], o)
-    api_frames = [e[1] for e in sc.unaware]
-    return frames, api_frames, [(k, v) for k, vs in groups for v in vs]
+        groups.append((rnd.choice(topics), rnd.choice([0, 1, 2]), rnd.choice([None, b"", b"k%d" % i]), vals))
+    plan = iter([p for _t, p, _k, _v in groups])
+
+    class ScriptedPartitioner(object):
+        def __init__(self, topic, partitions):
+            pass
+
+        def partition(self, key, partitions):
+            return next(plan)
+    acks = rnd.choice([1, 1, -1, 2])
+    timeout = rnd.choice([1000, 1, 30000, rnd.randint(1, 2 ** 31 - 1)])
+    total = sum(len(v) for _t, _p, _k, v in groups)
+    base = rnd.choice([1600000000000, 1234567890123, 7])
+    problems = []
+    resolved_table = discovery and any(o[0] == 0 and o[1] == 0 for o in outs)
+    version, magic = (2, 1) if resolved_table else (0, 0)
+    with CL.Recorder(base, 1):
+        prod = Producer(sc.client, partitioner_class=ScriptedPartitioner, req_acks=acks, ack_timeout=timeout,
+                        codec=(codec_id or None), batch_send=True, batch_every_n=total, batch_every_b=0, batch_every_t=0)
+        for topic, _p, key, vals in groups:
+            watch(prod.send_messages(topic, key=key, msgs=list(vals)))
+        for o in outs:
+            pending = [e for e in sc.unaware if not e[2].called]
+            if not pending:
+                break
+            sc.deliver(pending[0], o)
+        n_first = len(frames)
+        # the send fails; metadata is refreshed; the retry timer fires; a lookup started by the retry (there must be
+        # none) would be left without an answer three times
+        for fr in list(frames):
+            fr[2].errback(RequestTimedOutError("scripted: no response from the broker"))
+        for t in topics:
+            give_topic(sc.client, t, (0, 1, 2))
+        for _ in range(4):
+            sc.clock.advance(30)
+            for e in [e for e in sc.unaware if not e[2].called]:
+                sc.deliver(e, (1,))
+    want = lambda corr: expected_produce(groups, codec_id, magic, base, version, corr, cid.encode("utf-8"), acks, timeout)   # noqa: E731
+    if n_first != 1:
+        problems.append("expected exactly one Produce request for the batch, saw %d" % n_first)
+    if len(frames) <= n_first:
+        problems.append("no retry after the failed send")
+    parsed = []
+    for k, (corr, fr, _d) in enumerate(frames):
+        req = strip_wrapper_values(KS.parse_request(fr))
+        parsed.append(req)
+        if req != want(corr):
+            problems.append("frame %d (%s) does not parse to what the caller supplied" % (k, "first send" if k < n_first else "retry"))
+        elif not KS.format_matches_version(req):
+            problems.append("frame %d: message format does not match the header version" % k)
+    rewritten = cell_rewritten(sc.client)
+    if rewritten:
+        problems.append("KafkaClient._api_versions written again after it was resolved: %s -> %s" % rewritten)
+    return {"frames": [(c, f) for c, f, _ in frames], "api_frames": [e[1] for e in sc.unaware], "n_first": n_first,
+            "parsed": parsed, "expected": [want(c) for c, _f, _d in frames], "problems": problems,
+            "config": {"client_id": cid, "acks": acks, "timeout": timeout, "codec": codec_id, "groups": repr(groups),
+                       "discovery": discovery, "outcomes": outs, "clock_base": base}}
 
 
 def is_subsequence(xs, ys):
@@ -948,9 +1090,9 @@ def e2e_client(rnd, g):
 
 
 def all_event_histories(depth):
-    """every sequence of at most `depth` events over: two calls, and for each of them the four outcomes"""
+    """every sequence of at most `depth` events over: two calls, for each of them the four outcomes, and a reset"""
     outcomes = [(0, 0, RACE_TABLE), (0, 35, []), (1,), (2,)]
-    alphabet = [("call", 0, 0), ("call", 1, 1)] + [("reply", i, o) for i in (0, 1) for o in outcomes]
+    alphabet = [("call", 0, 0), ("call", 1, 1), ("reset", 0)] + [("reply", i, o) for i in (0, 1) for o in outcomes]
     seqs = [[]]
     out = []
     for _ in range(depth):
@@ -1210,48 +1352,30 @@ def run(ck):
         discovery = rnd.random() < 0.85
         outs = [[(1,), (1,), (1,)], [(0, 35, [])], [(0, 0, gen_table(rnd, True))], [(1,), (0, 0, gen_table(rnd, True))]][k % 4]
         codec_id = rnd.choice([0, 1])
-        frames, api_frames, sent = e2e_producer(rnd, discovery, outs, codec_id, rnd.randint(1, 4))
+        run = e2e_producer(rnd, discovery, outs, codec_id)
         resolved_table = discovery and any(o[0] == 0 and o[1] == 0 for o in outs)
-        ck.hist("e2e_producer_" + ("table" if resolved_table else "fallback") + "_codec%d" % codec_id)
-        if not frames:
-            ck.violation({"kind": "end to end: the Producer sent no Produce request", "discovery": discovery, "outcomes": outs,
-                          "replay_op": "none"})
-        got = []
-        for fr in frames + api_frames:
+        ck.hist("e2e_producer_" + ("table_v2_format1" if resolved_table else "fallback_v0_format0") + "_codec%d" % codec_id)
+        ck.hist("e2e_producer_retry_frames", len(run["frames"]) - run["n_first"])
+        for _corr, fr in run["frames"]:
             req, flat, case = spec_parse(fr)
             sp_cases.append(case)
             sp_impl.append(flat)
-            if req is None:
-                ck.violation({"kind": "end to end: frame handed to the broker client is not a request of the Kafka grammar",
-                              "bytes": list(fr), "discovery": discovery, "outcomes": outs, "replay_op": "frame"})
-                continue
-            if req["client"] != b"afkak-client":
-                ck.violation({"kind": "end to end: client id on the wire differs from the one configured", "bytes": list(fr),
-                              "replay_op": "frame"})
-            if req["body"]["api"] == "Produce":
-                want_v = 2 if resolved_table else 0
-                if req["version"] != want_v or not KS.format_matches_version(req):
-                    ck.violation({"kind": "end to end: Produce v%d carrying message formats %r (expected v%d)" %
-                                          (req["version"], sorted(set(KS.magics(req))), want_v),
-                                  "theorem": "C04_negotiation", "discovery": discovery, "outcomes": outs, "bytes": list(fr),
-                                  "replay_op": "frame"})
-                for _t, parts in req["body"]["topics"]:
-                    for _p, ms in parts:
-                        here = []
-                        for m in ms:
-                            if m["wrapper"] != (codec_id == 1) or (m["msg"]["attr"] & 7) != codec_id:
-                                ck.violation({"kind": "end to end: compression attribute on the wire differs from the producer's codec",
-                                              "codec": codec_id, "bytes": list(fr), "replay_op": "frame"})
-                            here += [(i["key"], i["value"]) for i in m["inner"]] if m["wrapper"] else [(m["msg"]["key"], m["msg"]["value"])]
-                        if not is_subsequence(here, sent):
-                            ck.violation({"kind": "end to end: per-partition message order on the wire differs from the order sent",
-                                          "sent": repr(sent), "partition_on_wire": repr(here), "bytes": list(fr), "replay_op": "frame"})
-                        got += here
-            elif req["body"]["api"] != "ApiVersions":
-                ck.violation({"kind": "end to end: unexpected request type", "parsed": repr(req)[:500], "replay_op": "frame"})
-        if frames and sorted(got, key=repr) != sorted(sent, key=repr):
-            ck.violation({"kind": "end to end: keys/values on the wire differ from the messages sent", "sent": repr(sent),
-                          "wire": repr(got), "frames": [list(f) for f in frames], "replay_op": "none"})
+        for fr in run["api_frames"]:
+            req, flat, case = spec_parse(fr)
+            sp_cases.append(case)
+            sp_impl.append(flat)
+            if req is None or req["client"] != run["config"]["client_id"].encode("utf-8") or req["body"]["api"] not in ("ApiVersions", "Metadata"):
+                ck.violation({"kind": "end to end: broker-agnostic frame is not an ApiVersions/Metadata request with the configured client id",
+                              "bytes": list(fr), "parsed": repr(req)[:600], "replay_op": "frame"})
+        for what in run["problems"][:1]:
+            bad = [k for k, (a, b) in enumerate(zip(run["parsed"], run["expected"])) if a != b]
+            k = bad[0] if bad else 0
+            ck.violation({"kind": "end to end (Producer -> KafkaClient, failed send, retry): " + what,
+                          "theorem": "C04_producer_request / C04_resolved_state_final", "config": run["config"],
+                          "all_problems": run["problems"],
+                          "bytes": list(run["frames"][k][1]) if run["frames"] else [],
+                          "parsed": repr(run["parsed"][k])[:1500] if run["parsed"] else None,
+                          "expected": repr(run["expected"][k])[:1500] if run["expected"] else None, "replay_op": "frame"})
     diffs, mo = ck.correspond(MODEL, MODULE, sp_cases, sp_impl, "grammar parsers Python vs Coq on frames captured end to end (Producer -> KafkaClient)",
                               nontrivial=lambda c, o: o[0] == 1, describe=describe)
     if diffs:
